@@ -147,16 +147,61 @@ func extractUnpicklerCases(p *core.Prog, fn *ssa.Function) (cases map[string]*un
 			}
 		}
 	})
-	caseOf := func(at ssa.Instruction) *unpickleCase {
-		var res *unpickleCase
-		for f := range p.FactsAt(at) {
-			if !f.Val {
+	// reach[s]: the blocks reachable from the entry when name == s (every test of name against a constant takes the edge
+	// consistent with that); reach[""] stands for a name that is none of the cases. An instruction belongs to the cases
+	// whose reach contains its block, unless a foreign name reaches it too (common code). A case list
+	// (`case "A", "B":`) thereby belongs to both.
+	reachFor := func(name string, foreign bool) map[*ssa.BasicBlock]bool {
+		seen := map[*ssa.BasicBlock]bool{}
+		if len(fn.Blocks) == 0 {
+			return seen
+		}
+		work := []*ssa.BasicBlock{fn.Blocks[0]}
+		for len(work) > 0 {
+			blk := work[len(work)-1]
+			work = work[:len(work)-1]
+			if seen[blk] {
 				continue
 			}
-			if b, ok := f.Cond.(*ssa.BinOp); ok && b.X == ssa.Value(nameP) && b.Op == token.EQL {
-				if s, ok := core.ConstString(b.Y); ok {
-					res = cases[s]
+			seen[blk] = true
+			succs := blk.Succs
+			if len(blk.Instrs) > 0 {
+				if iff, ok := blk.Instrs[len(blk.Instrs)-1].(*ssa.If); ok {
+					if bo, ok := iff.Cond.(*ssa.BinOp); ok && bo.X == ssa.Value(nameP) && (bo.Op == token.EQL || bo.Op == token.NEQ) {
+						if t, ok := core.ConstString(bo.Y); ok {
+							eq := !foreign && t == name
+							if bo.Op == token.NEQ {
+								eq = !eq
+							}
+							if eq {
+								succs = blk.Succs[:1]
+							} else {
+								succs = blk.Succs[1:]
+							}
+						}
+					}
 				}
+			}
+			work = append(work, succs...)
+		}
+		return seen
+	}
+	foreignReach := reachFor("", true)
+	reach := map[string]map[*ssa.BasicBlock]bool{}
+	var caseNames []string
+	for n := range cases {
+		caseNames = append(caseNames, n)
+		reach[n] = reachFor(n, false)
+	}
+	sort.Strings(caseNames)
+	caseOf := func(at ssa.Instruction) []*unpickleCase {
+		if at.Block() == nil || foreignReach[at.Block()] {
+			return nil
+		}
+		var res []*unpickleCase
+		for _, n := range caseNames {
+			if reach[n][at.Block()] {
+				res = append(res, cases[n])
 			}
 		}
 		return res
@@ -175,14 +220,14 @@ func extractUnpicklerCases(p *core.Prog, fn *ssa.Function) (cases map[string]*un
 				return
 			}
 			if n, ok := core.ConstInt(x.Y); ok {
-				if uc := caseOf(in); uc != nil {
+				for _, uc := range caseOf(in) {
 					uc.Arity = int(n)
 				}
 			}
 		case *ssa.IndexAddr:
 			if x.X == ssa.Value(argsP) {
 				if k, ok := core.ConstInt(x.Index); ok {
-					if uc := caseOf(in); uc != nil {
+					for _, uc := range caseOf(in) {
 						uc.Indexes[k] = true
 					}
 				}
@@ -194,7 +239,7 @@ func extractUnpicklerCases(p *core.Prog, fn *ssa.Function) (cases map[string]*un
 					if b, isB := x.Call.Value.(*ssa.Builtin); isB && (b.Name() == "len" || b.Name() == "cap") {
 						continue
 					}
-					if uc := caseOf(in); uc != nil {
+					for _, uc := range caseOf(in) {
 						uc.Whole = true
 					}
 				}
@@ -202,7 +247,7 @@ func extractUnpicklerCases(p *core.Prog, fn *ssa.Function) (cases map[string]*un
 		case *ssa.Return:
 			for _, v := range x.Results {
 				if core.Unwrap(v) == ssa.Value(argsP) {
-					if uc := caseOf(in); uc != nil {
+					for _, uc := range caseOf(in) {
 						uc.Whole = true
 					}
 				}
@@ -214,6 +259,7 @@ func extractUnpicklerCases(p *core.Prog, fn *ssa.Function) (cases map[string]*un
 
 func runC08(p *core.Prog, r *core.Result) {
 	r.Decided = []string{
+		"R8.12 the fingerprints are compared in full: diffEnv reports 'unchanged' only on whole-value equality of the recorded and the current environment (shared with C01 R1.13)",
 		"R8.1 host pickler and unpickler agree: every (module, name) the pickler produces has an unpickler case that checks exactly the arity of the tuple the pickler builds",
 		"R8.2 for every in-module value type with attributes, the names it advertises (AttrNames) are names it answers (Attr): the encoder's has-attrs branch never encodes a nil",
 		"R8.3 a pickler case whose arguments are an open environment (can contain the subject again, since recursion is enabled) needs an in-progress guard, because NEWOBJ results are memoized only after their arguments",
@@ -221,7 +267,7 @@ func runC08(p *core.Prog, r *core.Result) {
 		"R8.11 a pickler case tells its subjects apart: the argument tuple of every case is computed from the value being pickled, unless the kind has a single value (a zero-size sentinel) - a constant encoding makes all values of a kind indistinguishable, so rebinding a global from one to another leaves the fingerprint unchanged",
 		"R8.10 exhaustiveness over value kinds: every concrete type that implements starlark.Value - in the Starlark interpreter package and in this module - is matched by a case of the encoder (by type, or through Sequence / IterableMapping / Iterable / HasAttrs) or of the host pickler; a kind without an encoding makes every target that references such a value unbuildable ('cannot pickle value of type …')",
 		"R8.9 whatever mutable state the pickler closure captures (the in-progress set behind the Recursion marker) is allocated by the call that creates the pickler: not a parameter fed from a pool or a package variable, so nothing one encoding did (least of all a failed one) can change what the next one emits",
-		"R8.8 a host value type whose contents are written at run time (a map or slice field updated by its methods) does not implement the interfaces the encoder pickles by content (IterableMapping, Sequence): such values (caches) enter the fingerprint as constants, not as what happens to be stored in them in this process",
+		"R8.8 a host value type whose contents are written at run time (a map or slice field updated by its methods) does not implement the interfaces the encoder pickles by content (IterableMapping, Sequence), and no function reachable from the host pickler reads those contents: such values (caches) enter the fingerprint as constants, not as what happens to be stored in them in this process",
 		"R8.7 the host pickler builds no (name, value) association lists of its own: only the lists returned by ModuleEnv/Env (one entry per binding, unique names) reach the unpickler's dictionary conversion, which collapses equal names",
 		"R8.6 every argument the host pickler builds for a subject is computed from that subject alone (no captured or package-level state in its data flow): distinct closures never share an argument object that the unpickler then completes in place",
 		"R8.5 nothing dropped: every component of a function's environment (Env, ModuleEnv, Bytecode, Code) flows into the pickled tuple and every tuple element is consumed by the unpickler",
@@ -346,7 +392,8 @@ func runC08(p *core.Prog, r *core.Result) {
 	r.Floor("R8.6", nElems, 3, "elements of pickled argument tuples")
 
 	// ---- R8.8 values with run-time contents are not fingerprinted by content
-	checkRuntimeStateNotPickledByContent(p, r)
+	checkRuntimeStateNotPickledByContent(p, r, "R8.8")
+	checkEnvVerdictWholeEquality(p, r, "R8.12")
 
 	// ---- R8.9 the pickler's own state lives for one encoding
 	checkPicklerStateFresh(p, r, picklers)
@@ -1164,14 +1211,42 @@ func checkPicklerStateFresh(p *core.Prog, r *core.Result, picklers []*ssa.Functi
 	}
 }
 
+// picklerReach: the module functions reachable from the host pickler functions through static calls (bounded depth),
+// including their function literals.
+func picklerReach(p *core.Prog) []*ssa.Function {
+	seen := map[*ssa.Function]bool{}
+	var out []*ssa.Function
+	var visit func(fn *ssa.Function, depth int)
+	visit = func(fn *ssa.Function, depth int) {
+		if fn == nil || seen[fn] || fn.Blocks == nil || !core.InModule(fn) || depth > 5 {
+			return
+		}
+		seen[fn] = true
+		out = append(out, fn)
+		for _, f := range core.WithAnons(fn) {
+			if f != fn {
+				visit(f, depth)
+			}
+			for _, c := range core.Calls(f) {
+				visit(core.Callee(c), depth+1)
+			}
+		}
+	}
+	for _, f := range funcsConvertedTo(p, pkgPickle, "PicklerFunc") {
+		visit(f, 0)
+	}
+	sort.Slice(out, func(i, j int) bool { return out[i].String() < out[j].String() })
+	return out
+}
+
 // checkRuntimeStateNotPickledByContent implements R8.8. The encoder pickles any starlark.IterableMapping or
 // starlark.Sequence by its elements (before it looks at attributes). A module-level object whose elements are
 // produced while targets run (Cache) would make the fingerprint of every function that references it depend on the
 // state of the process: different before and after a run, and not total (cached values need not be picklable).
-func checkRuntimeStateNotPickledByContent(p *core.Prog, r *core.Result) {
+func checkRuntimeStateNotPickledByContent(p *core.Prog, r *core.Result, rule string) {
 	sp := p.TPkgPath(pkgStar)
 	if sp == nil {
-		r.Unk("R8.8", "anchor:starlark", "-", "starlark package types not available")
+		r.Unk(rule, "anchor:starlark", "-", "starlark package types not available")
 		return
 	}
 	var ifaces []*types.Interface
@@ -1185,7 +1260,7 @@ func checkRuntimeStateNotPickledByContent(p *core.Prog, r *core.Result) {
 		}
 	}
 	if len(ifaces) == 0 {
-		r.Unk("R8.8", "anchor:starlark.IterableMapping", "-", "interfaces not found")
+		r.Unk(rule, "anchor:starlark.IterableMapping", "-", "interfaces not found")
 		return
 	}
 	valueIface, _ := sp.Scope().Lookup("Value").Type().Underlying().(*types.Interface)
@@ -1261,12 +1336,39 @@ func checkRuntimeStateNotPickledByContent(p *core.Prog, r *core.Result) {
 				}
 			}
 			pos := p.Pos(tn.Pos())
-			if len(impl) > 0 {
-				r.Bad("R8.8", construct, pos, "%s holds contents written at run time (%s) and implements starlark.%s, which the encoder pickles element by element: the fingerprint of every function that references such a value depends on what this process has stored in it so far (it differs before and after a run, so unchanged projects rebuild, and a stored value that cannot be pickled makes a successful target fail)", name, strings.Join(dyn, ", "), strings.Join(impl, "/"))
+			// ... nor does the host pickler read those contents itself (directly or through a helper such as a snapshot method)
+			var readAt ssa.Instruction
+			var readIn *ssa.Function
+			for _, fn := range picklerReach(p) {
+				core.Instrs(fn, func(in ssa.Instruction) {
+					if readAt != nil {
+						return
+					}
+					for _, d := range dyn {
+						switch x := in.(type) {
+						case *ssa.FieldAddr:
+							if core.IsField(x, pkg.Types.Path(), name, d) {
+								readAt, readIn = in, fn
+							}
+						case *ssa.Field:
+							if core.IsField(x, pkg.Types.Path(), name, d) {
+								readAt, readIn = in, fn
+							}
+						}
+					}
+				})
+			}
+			if readAt != nil {
+				r.Bad(rule, pkg.Types.Name()+"."+name+"#pickler-reads-contents", p.InstrPos(readAt), "the host pickler reaches %s, which reads the run-time contents of %s (%s): the fingerprint of every function that references such a value depends on what this process has stored in it so far - it differs before and after a run (an unchanged project rebuilds) and between load orders", fname(readIn), name, strings.Join(dyn, ", "))
 			} else {
-				r.OK("R8.8", construct, pos, "%s (run-time contents: %s) is not pickled by content", name, strings.Join(dyn, ", "))
+				r.OK(rule, pkg.Types.Name()+"."+name+"#pickler-reads-contents", pos, "no function reachable from the host pickler reads the run-time contents of %s (%s)", name, strings.Join(dyn, ", "))
+			}
+			if len(impl) > 0 {
+				r.Bad(rule, construct, pos, "%s holds contents written at run time (%s) and implements starlark.%s, which the encoder pickles element by element: the fingerprint of every function that references such a value depends on what this process has stored in it so far (it differs before and after a run, so unchanged projects rebuild, and a stored value that cannot be pickled makes a successful target fail)", name, strings.Join(dyn, ", "), strings.Join(impl, "/"))
+			} else {
+				r.OK(rule, construct, pos, "%s (run-time contents: %s) is not pickled by content", name, strings.Join(dyn, ", "))
 			}
 		}
 	}
-	r.Floor("R8.8", n, 1, "host value types with run-time contents")
+	r.Floor(rule, n, 1, "host value types with run-time contents")
 }
